@@ -174,7 +174,8 @@ class Points:
         return "{}:\n{}".format(self.__class__.__name__, self.coordinates)
 
     def _compute_slice(self, val):
-        if isinstance(val, tuple):
+        is_tuple = isinstance(val, tuple)
+        if is_tuple:
             val = list(val)
 
         if isinstance(val, (np.ndarray, torch.Tensor)) and val.dtype in (
@@ -211,6 +212,11 @@ class Points:
                         out_idxs += rng[slc[var]]
                     val[-1] = out_idxs
 
+        if is_tuple:
+            # hand a tuple index back to torch as a tuple: a list that contains only
+            # integers would be read as ONE index list for the first axis, so that
+            # points[0, 1] on two batch axes selected the rows 0 and 1 of the first axis
+            val = tuple(val)
         return val, out_space
 
     def __getitem__(self, val):
